@@ -68,6 +68,18 @@ def build(scratch):
     if r.returncode != 0:
         die("faults/set.go instrumentation failed:\n" + r.stdout + r.stderr)
     replace[setgo] = dst
+    # deterministic select order in the pusher's Receive (optional: falls back to the
+    # "one outcome queue at a time" scheduling constraint if the rewrite does not apply)
+    push_rewritten = False
+    src = os.path.join(REPO, "actions/http-push-streamer.go")
+    cur = replace.get(src, src)
+    dst2 = os.path.join(ov, "actions_http-push-streamer.sel.go")
+    r = subprocess.run([GO, "run", "./instrument", "-pushselect", cur, dst2], cwd=VERIF + "/sim", env=env(), capture_output=True, text=True)
+    if r.returncode == 0:
+        replace[src] = dst2
+        push_rewritten = True
+    else:
+        print("NOTE: push select rewrite not applied: " + (r.stderr or "")[:200], file=sys.stderr)
     for pkg in ("actions", "services", "faults"):
         replace[os.path.join(REPO, pkg, "zz_verif.go")] = os.path.join(VERIF, "overlay", pkg + "_zz_verif.go")
     ovj = os.path.join(scratch, "overlay.json")
@@ -85,7 +97,8 @@ def build(scratch):
         full = dict(replace)
         full.update(dict(opts))
         json.dump({"Replace": full}, open(ovj, "w"), indent=1)
-        return subprocess.run([GO, "test", "-c", "-overlay", ovj, "-o", out, "."], cwd=VERIF + "/sim", env=env(), capture_output=True, text=True)
+        ld = "-X verif/sim.pushSelectMode=" + ("rewritten" if push_rewritten else "constraint")
+        return subprocess.run([GO, "test", "-c", "-ldflags", ld, "-overlay", ovj, "-o", out, "."], cwd=VERIF + "/sim", env=env(), capture_output=True, text=True)
 
     r = attempt(optional)
     if r.returncode != 0:
